@@ -157,10 +157,87 @@ def job_gid(jc):
     jc.expect_reached("ok")
 
 
+def replay_named(inp):
+    """Inputs as a custom glyph map gives them: explicit glyph names, code point lists that may be empty."""
+    from picosvg.geometric_types import Rect
+
+    names, has_cp = inp["names"], inp["has_cp"]
+    cps = [((int(inp[f"c{i}"]),) if h else ()) for i, h in enumerate(has_cp)]
+    cfg = FontConfig()._replace(color_format="untouchedsvg", output_file="out.ufo", fea_file="")
+    svg = type("S", (), {"view_box": lambda self: Rect(0, 0, 10, 10)})()
+    inputs = [WF.InputGlyph(None, None, c, n, svg, None) for c, n in zip(cps, names)]
+    dup = len(set(names)) != len(names)
+    try:
+        ufo, _ = WF._generate_color_font(cfg, inputs)
+    except Exception as e:
+        same_cp = len({c for c in cps if c}) != len([c for c in cps if c])
+        return None if (dup or same_cp) else {"names": names, "codepoints": cps, "raised": repr(e)}
+    if dup:
+        return {"names": names, "codepoints": [list(c) for c in cps], "problem": "two inputs carry the same glyph name; the build did not stop and one replaced the other",
+                "glyphOrder": list(ufo.glyphOrder)}
+    return None
+
+
+def job_named(jc):
+    """_generate_color_font on inputs with explicit glyph names: a repeated name stops the build whether or
+    not the inputs carry code points (symbolic), at every position."""
+    jc.encode(WF._generate_color_font, WF._ensure_codepoints_will_have_glyphs)
+    names, has_cp = jc.params["names"], jc.params["has_cp"]
+    inp = {"names": list(names), "has_cp": list(has_cp)}
+    for i, h in enumerate(has_cp):
+        if h:
+            inp[f"c{i}"] = core.SymNum(z3.Int(f"c{i}"))
+    dup = len(set(names)) != len(names)
+
+    def body():
+        cps = [((core.integer(f"c{i}", 0x21, 0x10FFFF),) if h else ()) for i, h in enumerate(has_cp)]
+        cfg = FontConfig()._replace(color_format="untouchedsvg", output_file="out.ufo", fea_file="")
+        inputs = [WF.InputGlyph(None, None, c, n, None, None) for c, n in zip(cps, names)]
+        RecColorGlyph.created = []
+        ufo, _ = WF._generate_color_font(cfg, inputs)
+        return ufo, list(RecColorGlyph.created)
+
+    sh = [
+        shims.Shim("nanoemoji.write_font", "_ufo", lambda cfg: RecUfo(), "recorder ufo"),
+        shims.Shim("nanoemoji.write_font", "ColorGlyph", RecColorGlyph, "recorder for ColorGlyph.create"),
+        shims.Shim("nanoemoji.write_font", "_COLOR_FORMAT_GENERATORS", {"untouchedsvg": WF.ColorGenerator(lambda *a: None, lambda *a: None, ".ttf")}, "generator not under test"),
+    ]
+    saved = core.SymNum.__hash__
+    core.SymNum.__hash__ = lambda self: 0
+    try:
+        with shims.installed(sh):
+            results = jc.explore(body, catch=(ValueError, AssertionError), max_paths=2000)
+    finally:
+        core.SymNum.__hash__ = saved
+    for r in results:
+        if r.exc is not None:
+            jc.reach(r, "raised")
+            same_cp = [z3.Int(f"c{i}") == z3.Int(f"c{k}") for i in range(len(names)) for k in range(i + 1, len(names)) if has_cp[i] and has_cp[k]]
+            jc.prove(r, z3.Or(z3.BoolVal(dup), *same_cp), "the build stops only for a repeated glyph name (or code point)", inp, replay_named, key="C17:duplicate-glyph-name:named:spurious")
+            continue
+        ufo, created = r.value
+        jc.reach(r, "ok")
+        gids = [c.glyph_id for c in created]
+        jc.prove(r, z3.BoolVal(not dup and len(created) == len(names) and len(set(gids)) == len(gids)), "a repeated glyph name never yields a font (no source is dropped or merged)", inp, replay_named,
+                 key="C17:duplicate-glyph-name:named")
+    jc.expect_reached("raised" if dup else "ok")
+
+
+def named_jobs(tier):
+    import itertools
+
+    js = []
+    for names in (("a", "a"), ("a", "b"), ("a", "b", "a"), ("b", "a", "a"), ("a", "a", "b")):
+        for has_cp in itertools.product((True, False), repeat=len(names)):
+            js.append(Job(f"named_inputs[{','.join(names)}|cps {''.join('y' if h else 'n' for h in has_cp)}]", job_named, names=names, has_cp=has_cp))
+    return js
+
+
+
 def jobs(tier):
     # total code points <= 3 per job: set/sort/containment over symbolic names forks steeply
     # (measured: 4 code points > 1400 paths / 10 min)
     shapes = [(("x5",), ("x5",)), (("x5",), ("L", "x5")), (("L",), ("x2",)), (("x5",), ("x5", "x4")), (("L",), ("L", "x5")), (("x4",), ("x4",), ("x4",))]
     if tier != "quick":
         shapes += [(("x3",), ("L", "x3")), (("x5",), ("x4", "x5")), (("x2",), ("x2", "x2")), (("x5",), ("x5",), ("L",)), (("L", "x5", "x4"),), (("x6",), ("L", "x6"))]
-    return [Job(f"gid_bookkeeping[{'|'.join('.'.join(s) for s in sh)}]", job_gid, shape=sh) for sh in shapes]
+    return [Job(f"gid_bookkeeping[{'|'.join('.'.join(s) for s in sh)}]", job_gid, shape=sh) for sh in shapes] + named_jobs(tier)
